@@ -28,7 +28,7 @@ import (
 
 func TestMain(m *testing.M) { evid.Main(m, "C14") }
 
-const ruleText = "rapid grammar: RTSP requests (11 RFC methods + extension tokens; rtsp:// URLs with IPv4 / name / IPv6 literal / zone, optional port, empty path, 0..5 segments with percent-escapes, query, '*'), responses (every RFC 2326 status + undefined 3-digit codes; default, RFC and custom reason phrases), 0..8 header fields (RFC names in random case + unknown names, 1..3 values, sender freedoms: separator LWS, split into several lines), bodies 0..70 000 bytes, '$' frames on a generated channel table (wire channel 0..255) with 0..65535-byte payloads (RTP packets on data channels, opaque bytes on control channels); single items through Write->Read and refEncode->Read, and concatenations of 1..6 items through the session dispatcher over a reader that returns generated chunk sizes (1 byte .. whole) into bufio buffers of 16 B..128 KiB, each stream parsed under two different chunkings. Non-trivial = a concatenation holding >=1 frame and >=1 message with a body in which a read boundary falls strictly inside a start/header line or a 4-byte frame prefix."
+const ruleText = "rapid grammar: RTSP requests (11 RFC methods + extension tokens; rtsp:// URLs with IPv4 / name / IPv6 literal / zone, optional port, empty path, 0..5 segments with percent-escapes, query, '*'), responses (every RFC 2326 status + undefined 3-digit codes; default, RFC and custom reason phrases), 0..8 header fields (RFC names in random case + unknown names, 1..3 values, sender freedoms: separator LWS, split into several lines), bodies 0..70 000 bytes, '$' frames on a generated channel table (wire channel 0..255) with 0..65535-byte payloads (RTP packets on data channels, opaque bytes on control channels); single items through Write->Read and refEncode->Read, and concatenations of 1..6 items through the session dispatcher over a reader that returns generated chunk sizes (1 byte .. whole) into bufio buffers of 16 B..128 KiB, each stream parsed under two different chunkings; message objects with a history (header map that already holds a Content-Length equal / larger / smaller / zero / junk, answers built on the header of a request that was read, the same object written 1..3 times with changed or cleared bodies) followed by frames and messages on the same stream; field names in project / upper / lower / alternating / MIME-title / per-letter spellings. Non-trivial = a concatenation holding >=1 frame and >=1 message with a body in which a read boundary falls strictly inside a start/header line or a 4-byte frame prefix."
 
 // ---- delivery: a reader that returns the stream in the generated chunk sizes ----
 
@@ -448,6 +448,10 @@ func TestRoundTrip(t *testing.T) {
 	t.Run("sequence", func(t *testing.T) {
 		t.Parallel()
 		rapid.Check(t, propSequence)
+	})
+	t.Run("reuse", func(t *testing.T) {
+		t.Parallel()
+		rapid.Check(t, propReuse)
 	})
 }
 
